@@ -33,7 +33,7 @@ ASSUMPTIONS = [
     "dies, the root's own watch still reports, root deletion yields exactly one DirDeletedEvent(root) and a stopped emitter",
     "transient failures are injected at the module-global inotify_add_watch of watchdog.observers.inotify_c (errno via ctypes.set_errno)",
 ]
-MINIMUMS = {"quick": {"root_probes_judged": 300, "root_deletions_judged": 50, "faults_fired": 30, "selfstop_hold_cases_reached": 10, "api_hold_cases_reached": 80},
+MINIMUMS = {"quick": {"root_probes_judged": 300, "root_deletions_judged": 50, "faults_fired": 30, "selfstop_hold_cases_reached": 10, "api_hold_cases_reached": 80, "arrival_faults_fired": 30},
             "thorough": {"root_probes_judged": 8000, "root_deletions_judged": 1000}}
 WALL_CAP = {"quick": 170, "thorough": 3000}
 
@@ -207,6 +207,87 @@ def run_selfstop_hold(b: Batch, line, partner, seed):
             break
 
 
+ARRIVAL_SHAPES = [["x"], ["x", "y"], ["x", "x/y"], ["x", "y", "z"], ["x", "x/y", "z"], ["x", "x/y", "x/y/z"], ["x", "y", "y/w", "z"]]
+
+
+def run_arrival_fault(b: Batch, faults: AddWatchFaults, shape, method, j, en, seed):
+    """A directory tree arrives in a recursively watched root (moved in from outside, or created in place as one burst) while
+    the j-th inotify_add_watch fails: every directory of the tree outside the sub-tree whose watch failed must still be covered."""
+    import random
+
+    u = fsrig.Universe(random.Random(seed))
+    sess = None
+    b.case()
+    try:
+        dirs = [""] + shape
+        if method == "move_in":
+            os.mkdir(u.abs("out/t"))
+            u.m.t["out/t"] = "d"
+            for d in shape:
+                os.mkdir(u.abs("out/t/" + d))
+                u.m.t["out/t/" + d] = "d"
+        sess = fsrig.Session(u, recursive=True, delay=0.1)
+        sess.drain()
+        sess.take()
+        faults.n = 0
+        faults.fired = []
+        faults.plan = {j: en}
+        faults.armed = True
+        try:
+            if method == "move_in":
+                u.do(("move_in", "out/t", "root/t"))
+            else:
+                u.do(("burst", "root/t", [("", "d")] + [(d, "d") for d in shape]))
+            sess.drain()
+        finally:
+            faults.armed = False
+        sess.take()
+        fired = list(faults.fired)
+        failed_rel = None
+        if fired:
+            failed_rel = sess.rel_of(os.fsdecode(fired[0][1]))
+            b.count("faults_fired")
+            b.count("arrival_faults_fired")
+            b.add("fault_errnos", errno.errorcode.get(en, "?"))
+        # probe every directory of the arrived tree
+        made = []
+        for i, d in enumerate(dirs):
+            rel = "t" if d == "" else "t/" + d
+            name = f"{fsrig.PROBE}{i}"
+            fd = os.open(u.abs("root/" + rel + "/" + name), os.O_CREAT | os.O_EXCL | os.O_WRONLY, 0o644)
+            os.close(fd)
+            made.append((rel, rel + "/" + name))
+        sess.drain()
+        evs = sess.take()
+        got = {e.src_path for e in evs if type(e).__name__ == "FileCreatedEvent"}
+        for rel, p in made:
+            if failed_rel is not None and (rel == failed_rel or rel.startswith(failed_rel + "/")):
+                continue  # a directory that "vanished" takes everything below it along: only the others are judged
+            b.count("arrival_probes_judged")
+            if sess.spell(p) not in got:
+                b.violation("directory-lost-after-transient-add-watch-failure",
+                            f"{method} of a tree {shape}: inotify_add_watch #{j} failed with {errno.errorcode.get(en)} for {failed_rel!r}; directory {rel!r} (another one) is not covered afterwards",
+                            witness={"shape": shape, "method": method, "j": j, "errno": errno.errorcode.get(en), "failed": failed_rel, "uncovered": rel},
+                            replay_spec={"kind": "arrival1", "shape": shape, "method": method, "j": j, "errno": en})
+        if fired:
+            b.nontrivial(["arrival", shape, method, j, en])
+    except fsrig.DrainFailed as e:
+        recs = e.detail or []
+        if e.reason == "library-thread-died" and recs:
+            b.violation(f"library-thread-died:{recs[0]['exc_type']}", f"{method} of {shape} with add_watch #{j} failing ({errno.errorcode.get(en)}): {recs[0]['thread_class']} died: {recs[0]['exc']}",
+                        witness={"shape": shape, "method": method, "j": j, "traceback": recs[0]["traceback"][-1200:]},
+                        replay_spec={"kind": "arrival1", "shape": shape, "method": method, "j": j, "errno": en})
+        else:
+            b.inconc("C07 arrival-fault case: sentinel not delivered")
+    finally:
+        if sess is not None:
+            try:
+                sess.close()
+            except Exception:  # noqa: BLE001
+                pass
+        u.cleanup()
+
+
 def discover_selfstop_lines():
     import tempfile
 
@@ -243,6 +324,7 @@ def plan(tier, seed, jobs):
         for j in range(3):
             specs.append({"kind": "faults", "n": 150, "seed": seed, "j": j, "budget_s": 50})
         specs.append({"kind": "selfstop", "reps": 2, "seed": seed, "budget_s": 60})
+        specs.append({"kind": "arrival", "errnos": [errno.ENOENT], "seed": seed, "budget_s": 60})
         for j in range(3):
             specs.append({"kind": "apiholds", "seed": seed, "j": j, "of": 3, "budget_s": 60})
     else:
@@ -256,6 +338,7 @@ def plan(tier, seed, jobs):
             specs.append({"kind": "selfstop", "reps": 10, "seed": seed + j, "budget_s": 600})
         for j in range(jobs):
             specs.append({"kind": "apiholds", "seed": seed, "j": j, "of": jobs, "budget_s": 900, "reps": 8})
+        specs.append({"kind": "arrival", "errnos": [errno.ENOENT, errno.ENOSPC, errno.EACCES], "seed": seed, "budget_s": 600})
     return specs
 
 
@@ -294,6 +377,25 @@ def run_batch(spec):
                     if b.expired():
                         break
                     run_selfstop_hold(b, ln, partner, spec["seed"] + rep)
+    elif k == "arrival":
+        faults = AddWatchFaults()
+        try:
+            for shape in ARRIVAL_SHAPES:
+                for method in ("move_in", "burst"):
+                    for j in range(len(shape) + 2):
+                        for en in spec["errnos"]:
+                            if b.expired():
+                                break
+                            run_arrival_fault(b, faults, shape, method, j, en, spec["seed"])
+        finally:
+            faults.restore()
+        b.sample({"arrival_fault": {"shapes": ARRIVAL_SHAPES[:3], "methods": ["move_in", "burst"], "positions": "every add_watch of the arrival"}})
+    elif k == "arrival1":
+        faults = AddWatchFaults()
+        try:
+            run_arrival_fault(b, faults, spec["shape"], spec["method"], spec["j"], spec["errno"], 1)
+        finally:
+            faults.restore()
     elif k == "apiholds":
         # the "no sequence of API calls" clause: library threads parked at every discovered line of the read/emit/close paths
         # while stop()/unschedule()/root removal runs; any library thread dying with an exception is a violation
